@@ -126,7 +126,7 @@ def _k_hmmer_twice(clause, facts):
         changes the *set* of surviving hits. """
     if facts.get("fn") != "hmmer.remove_overlapping":
         return False
-    if clause == "output-no-duplicates":
+    if clause == "output-is-sub-multiset-of-input":
         return facts.get("only_earliest_hit_shorter_than_limit") is True
     return (clause == "permutation-invariant" and facts.get("same_set") is True
             and facts.get("earliest_hit_shorter_than_limit") is True)
@@ -138,8 +138,11 @@ def _k_groups_not_merged(clause, facts):
         >= 4 hits (a-x-y-b) the survivors then depend on the order and, with score ties, a gene can lose every
         hit (assertion). Must not hide: order dependence / crashes in genes whose overlap groups are cliques
         or have fewer than 4 members. """
-    return (clause in ("permutation-invariant", "filter-crash") and facts.get("fn") == "filter_results"
-            and facts.get("chain_group_of_4") is True)
+    if facts.get("fn") != "filter_results" or facts.get("chain_group_of_4") is not True:
+        return False
+    if clause == "group-best-survives":      # the tied bests removed each other through two unmerged groups
+        return facts.get("tie_for_best") is True
+    return clause in ("permutation-invariant", "filter-crash")
 
 
 @findings.classifier("c13_competition_score_tie_by_order")
@@ -215,6 +218,15 @@ def _chunks(hsps, split):
     if pos < len(hsps):
         out.append(hsps[pos:])
     return [c for c in out if c]
+
+
+def _canon(hits):
+    """ 'ordered by position' leaves the order among equal starts open: compare with ties sorted """
+    return sorted(hits, key=lambda h: (h[1], h))
+
+
+def _canon_genes(out):
+    return {gene: _canon(hits) for gene, hits in out.items()}
 
 
 def _orders(n, perm_seed):
@@ -329,7 +341,10 @@ def run_refine_case(ctx, case, sample=True):
         if not ok:
             return
         if res[0] != out:
-            differing = sorted(g for g in set(out) | set(res[0]) if out.get(g) != res[0].get(g))
+            ctx.count("unspecified:order-among-equal-starts-follows-input")
+        if _canon_genes(res[0]) != _canon_genes(out):
+            differing = sorted(g for g in set(out) | set(res[0])
+                               if _canon(out.get(g, [])) != _canon(res[0].get(g, [])))
             ctx.violate("permutation-invariant", {
                 "fn": "refine", "mode": "neighbour" if mode else "normal", "n": len(hsps),
                 "start_tie": any(ties.get(g) for g in differing),
@@ -385,6 +400,7 @@ def run_hmmer_case(ctx, case):
         return
     nontrivial = check_hmmer_output(ctx, hits, cutoffs, limit, out, case)
     ctx.case(key, nontrivial=nontrivial, sample=dict(case, output=[list(h) for h in out]))
+    identical_inputs = len({tuple(h) for h in hits}) < len(hits)
     for order in _orders(len(hits), case["perm_seed"]):
         permuted = [hits[i] for i in order]
         ctx.count("op:hmmer-permutation")
@@ -392,6 +408,13 @@ def run_hmmer_case(ctx, case):
         if not ok:
             return
         if other != out:
+            ctx.count("unspecified:order-among-equal-starts-follows-input")
+        if identical_inputs and _canon(set(other)) == _canon(set(out)):
+            # how many copies of an identical input hit come back is not constrained
+            if _canon(other) != _canon(out):
+                ctx.count("unspecified:multiplicity-of-identical-input-hits")
+            continue
+        if _canon(other) != _canon(out):
             first = min(h[1] for h in hits)
             ctx.violate("permutation-invariant", {"fn": "hmmer.remove_overlapping", "n": len(hits), "limit": limit,
                                                   "same_set": set(other) == set(out),
